@@ -251,8 +251,8 @@ class Eval:
             p = dm.promote(t)
             v = self.conv(v, p, g)
             if dm.signed(p):
-                return -v - 1, p                     # always representable (two's complement)
-            return self._arith(-v - 1, p, g), p      # all bits flipped = (-v - 1) reduced modulo 2**N
+                return ~v, p                         # -v - 1: always representable (two's complement)
+            return self._arith(~v, p, g), p          # all bits flipped = (-v - 1) reduced modulo 2**N
         if k == "lnot":
             v, _ = self.ev(e[1], g)
             return _int(sym_not(_truth(v))), "int"
@@ -380,8 +380,8 @@ def _exact_methods():
             q, r, _ = tdivrem(a, b)
             return q if k == "div" else r
         if k in ("shl", "shr"):
-            bad = sym_or(b < 0, b > 2 * 64)
-            n = _bounded(ite(bad, 0, b), 0, 2 * 64)
+            bad = sym_or(b < 0, b > 2 * 64)              # plain False when the count's interval decides it
+            n = b if bad is False else _bounded(ite(bad, 0, b), 0, 2 * 64)
             return (a << n) if k == "shl" else (a >> n)
         if k == "band":
             return a & b
